@@ -2,7 +2,8 @@
 (* Implementation-shaped model of the console's quoting rule and command execution path:
      BuildLine = consoleaddons.console_command: " ".join(command_lexer.quote(x) for x in args)   (separator generalised)
      Parse     = CommandManager.parse_partial: command_lexer.expr.parse_string(line, parse_all=True)
-                 (pyparsing expands TABs to 8-column tab stops before it parses: ExpandTabs)
+                 (ExpandTabs = TRUE: pyparsing expands TABs to 8-column tab stops before it parses -- the code before
+                  commit eda6c3c2d; FALSE: expr.parse_with_tabs() is set, TABs reach the lexer -- the code as it is)
      Call      = CommandManager.execute: drop Space parts (part.isspace()), unquote, call_strings ->
                  Command.prepare_args -> types.*.parse per argument (str: backslash escapes are interpreted)
    Strings are sequences of code points.  The arguments, the parameter type and the separator are chosen in Init
@@ -11,7 +12,8 @@
    Deviations of the code from the property that the model reproduces (see findings_proposed/C45.md):
      quote() writes \x22 for a double quote when both quote characters occur; only the str type turns it back;
      the str type interprets every backslash escape (quote() does not protect backslashes);
-     pyparsing expands TABs, also inside quoted arguments;
+     (repaired by eda6c3c2d, kept as ExpandTabs = TRUE for the revert mutant: pyparsing expanded TABs, also inside
+      quoted arguments;)
      an unquoted part consisting only of non-ASCII-lexer whitespace (VT, FF, NBSP, ...) is taken for a separator. *)
 EXTENDS Mon_CmdLex, TLC
 CONSTANTS Alphabet,   \* set of code points arguments are built from
@@ -20,7 +22,8 @@ CONSTANTS Alphabet,   \* set of code points arguments are built from
           Seps,       \* set of separator strings (non-empty sequences over LexWs)
           SepLen,     \* lines whose arguments have at most this total length are built with every separator of Seps,
                       \* longer ones with a single space
-          CmdName     \* function pt -> name of the registered test command (code points)
+          CmdName,    \* function pt -> name of the registered test command (code points)
+          ExpandTabs  \* BOOLEAN, see Parse above
 VARIABLES args, pt, sep, pc, line, parts, mon, obs
 vars == <<args, pt, sep, pc, line, parts, mon, obs>>
 
@@ -54,7 +57,7 @@ BuildLine ==
      IN /\ line' = l
         /\ Emit(<<[k |-> "line", pt |-> pt, sent |-> args, line |-> l]>>)
 
-\* str.expandtabs(8), as pyparsing's parse_string applies it
+\* str.expandtabs(8), as pyparsing's parse_string applies it unless parse_with_tabs() was called on the grammar
 RECURSIVE Expand(_, _, _)
 Expand(s, i, col) ==
   IF i > Len(s) THEN <<>>
@@ -80,7 +83,7 @@ Lex(s, i) ==
 Parse ==
   /\ Live /\ pc = "built"
   /\ pc' = "parsed" /\ UNCHANGED <<args, pt, sep, line>>
-  /\ LET ps == Lex(Expand(line, 1, 0), 1)
+  /\ LET ps == Lex(IF ExpandTabs THEN Expand(line, 1, 0) ELSE line, 1)
      IN /\ parts' = ps
         /\ Emit(<<[k |-> "parts", parts |-> ps]>>)
 
